@@ -45,13 +45,26 @@ def api_fns(facts):
 
 
 def len_of_param(body, origins, param):
-    """Does a value derive from the length (PtrMetadata / len()) of slice parameter `param`?"""
+    """Does a value derive from the length (PtrMetadata / len()) of slice parameter `param`, in the unit of whole
+    samples?  A division (or shift / remainder) of the length by anything but another *argument* (the byte width of a
+    byte fill) truncates, so a comparison of the quotient with a capacity lets an over-long input through: not accepted."""
     for o in origins:
         if o[0] == "rv" and o[3]["k"] == "un" and o[3]["op"] == "PtrMetadata":
             for x in body.origins(o[3]["a"]):
                 if x[0] == "param" and x[1] == param:
                     return True
         if o[0] == "rv" and o[3]["k"] == "bin":
+            op = o[3]["op"].replace("WithOverflow", "").replace("Unchecked", "")
+            if op in ("Div", "Shr", "Rem"):
+                divisor = body.origins(o[3]["b"])
+                by_arg = bool(divisor) and all(d[0] == "param" and d[1] not in (1, param) or
+                                               (d[0] == "cast" and all(x[0] == "param" and x[1] not in (1, param) for x in d[4]))
+                                               for d in divisor)
+                if not by_arg:
+                    continue
+                if len_of_param(body, body.origins(o[3]["a"]), param):
+                    return True
+                continue
             if len_of_param(body, body.origins(o[3]["a"]), param) or len_of_param(body, body.origins(o[3]["b"]), param):
                 return True
         if o[0] == "call" and (o[2].get("fn") or {}).get("name") == "len":
